@@ -155,6 +155,17 @@ ApiCands(d, x1, x2) ==
          ELSE {})
 ApiOutcomes(d, x1, x2) == {o \in ApiCands(d, x1, x2) : ApiOk(d, x1, x2, o)}
 
+\* The one-argument form stores the result with self[key] = merged, and Deb822.__setitem__
+\* validates what it is given ("value must not have blank lines").  A result of the statement
+\* always passes; the blank line the keepends defect leaves behind does not: the defect then
+\* shows as a ValueError out of the one-argument form (self unchanged).
+M1Ok(d, x1, x2, o) ==
+   IF /\ "keepends" \in d /\ x1.t = "ml" /\ x2.t = "ml"
+      /\ \E i \in 1..Len(MlKeep(x1.it, x2.it)) : MlKeep(x1.it, x2.it)[i] = 0
+   THEN o = MfValueError
+   ELSE ApiOk(d, x1, x2, o)
+M1Outcomes(d, x1, x2) == {o \in ApiCands(d, x1, x2) : M1Ok(d, x1, x2, o)}
+
 \* ---- paragraphs
 PHas(par, key) == \E i \in 1..Len(par) : par[i].k = key
 PGet(par, key) == IF PHas(par, key) THEN par[CHOOSE i \in 1..Len(par) : par[i].k = key].v ELSE MfAbsent
@@ -205,7 +216,7 @@ M2(a, b) == /\ ~ApiUnspec(X(a), X(b))
 
 \* one-argument form: self = s, merged into s in place; None returned; exceptions change nothing
 M1(s, a) == /\ ~ApiUnspec(X(s), X(a))
-            /\ \E o \in ApiOutcomes(Defects, X(s), X(a)) :
+            /\ \E o \in M1Outcomes(Defects, X(s), X(a)) :
                   IF o.k = "val"
                   THEN objs' = [objs EXCEPT ![s] = PPut(@, KEY, o.v)] /\ mres' = MfNone
                   ELSE UNCHANGED objs /\ mres' = o
@@ -285,10 +296,10 @@ RECURSIVE SortedSeq(_)
 SortedSeq(S) == IF S = {} THEN <<>>
                 ELSE LET m == CHOOSE x \in S : \A y \in S : x <= y IN <<m>> \o SortedSeq(S \ {m})
 
-Summary(d, x1, x2) ==
+Summary(d, form, x1, x2) ==
    IF ApiUnspec(x1, x2)
    THEN [k |-> "unspec", t |-> "-", exact |-> FALSE, sp |-> FALSE, cs |-> FALSE, set |-> <<>>, val |-> MfAbsent]
-   ELSE LET outs == ApiOutcomes(d, x1, x2)
+   ELSE LET outs == IF form = 1 THEN M1Outcomes(d, x1, x2) ELSE ApiOutcomes(d, x1, x2)
             o1 == CHOOSE o \in outs : TRUE
         IN [k |-> o1.k, t |-> o1.v.t, exact |-> Cardinality(outs) = 1,
             sp |-> \E o \in outs : o.v.sep = "sp", cs |-> \E o \in outs : o.v.sep = "cs",
@@ -298,6 +309,7 @@ EmitCase ==
    Emit => LET x1 == PGet(objs["p"], KEY)
                x2 == PGet(objs["q"], KEY)
            IN PrintT(<<"CASE", ToJson([p |-> objs["p"], q |-> objs["q"],
-                                       exp |-> Summary({}, x1, x2), kexp |-> Summary(MfKnown, x1, x2),
+                                       exp |-> Summary({}, 2, x1, x2), kexp |-> Summary(MfKnown, 2, x1, x2),
+                                       kexp1 |-> Summary(MfKnown, 1, x1, x2),
                                        akeys |-> [i \in 1..Len(PPut(objs["p"], KEY, MfEmpty)) |-> PPut(objs["p"], KEY, MfEmpty)[i].k]])>>)
 =============================================================================
